@@ -305,3 +305,66 @@ func hC07HttpBody() {
 	verifAssert(gotSet[1] && got[1] == string(body), "C07: HttpBody data = the raw request body")
 	verifAssert(gotSet[0] && got[0] == wantType, "C07: HttpBody content_type = the request's Content-Type, then query parameters")
 }
+
+// hC07HttpBodyResp: REST client downloading a google.api.HttpBody response (unary or server-streaming): the
+// HTTP body is the raw data bytes of the message(s), in order, and the Content-Type is the first message's
+// content_type.
+func hC07HttpBodyResp() {
+	svc := newFakeService(pipeSvc)
+	streaming := verifChoose("serverStream", 2) == 1
+	kind := fkUnary
+	if streaming {
+		kind = fkServer
+	}
+	m := svc.addMethod(pipeMethod, kind, 0, false)
+	m.out = fakeHTTPBodyDesc()
+	backend := &pipeBackend{target: ProtocolGRPC, unary: false, codec: CodecProto, bufSize: 16}
+	fc := &fakeConfig{protocols: []Protocol{ProtocolGRPC}, codecs: []string{CodecProto}, maxMsg: 4096, fieldsMode: true}
+	rules := []*annotations.HttpRule{{Selector: pipeSvc + "." + pipeMethod, Pattern: &annotations.HttpRule_Get{Get: "/download/{name}"}}}
+	tr, err := newFakeTranscoder(svc, backend, fc, rules, nil)
+	verifAssert(err == nil, "HttpBody response rule accepted")
+	if err != nil {
+		return
+	}
+	n := 1
+	if streaming {
+		n = verifChoose("messages", 3)
+	}
+	var wantBody []byte
+	wantType := ""
+	mixedTypes := false // chunks announcing different media types: which one the response carries is left open
+	var msgs []wireMsg
+	for i := 0; i < n; i++ {
+		fm := &fakeMsg{desc: m.out}
+		data := nondetBytes("data", verifChoose("dataLen", 3))
+		ct := []string{"text/plain", "image/png"}[verifChoose("type", 2)]
+		fm.fvals[0], fm.fset[0] = ct, true
+		fm.fvals[1], fm.fset[1] = string(data), true
+		if i == 0 {
+			wantType = ct
+		} else if ct != wantType {
+			mixedTypes = true
+		}
+		wantBody = append(wantBody, data...)
+		msgs = append(msgs, wireMsg{abstract: toyAppendFields(false, nil, fm)}) // the proto toy codec is the identity
+	}
+	backend.script = &respScript{msgs: msgs}
+	req := &http.Request{Method: "GET", URL: &url.URL{Path: "/download/x"}, Proto: "HTTP/1.1", ProtoMajor: 1, ProtoMinor: 1,
+		Header: http.Header{}, Body: &fakeBody{}, ContentLength: 0}
+	sink := newFakeSink()
+	tr.ServeHTTP(sink, req)
+	verifObsInt("calls", int64(backend.rec.calls))
+	verifObsInt("status", int64(sink.status))
+	verifObsBytes("client-body", sink.body)
+	verifObsStr("content-type", sink.hdr.Get("Content-Type"))
+	verifReach("httpbody-download-served")
+	verifAssert(backend.rec.calls == 1, "C07: an HttpBody download matching the rule is dispatched")
+	if backend.rec.calls != 1 {
+		return
+	}
+	verifAssert(sink.status == 200, "C07: an HttpBody download succeeds")
+	verifAssert(bytesEq(sink.body, wantBody), "C07: the HTTP body of an HttpBody response is the raw data of its message(s), in order")
+	if n > 0 && !mixedTypes {
+		verifAssert(sink.headSnap.Get("Content-Type") == wantType, "C07: the Content-Type of an HttpBody response is the message's content_type")
+	}
+}
